@@ -249,7 +249,10 @@ var directedHistories = [][]opSpec{
 		{Kind: "refresh-new", Snap: "some-snap", Rev: 2, Channel: "latest/edge", Cohort: "cohort-1", DevMode: true, IgnVal: true, Enum: true},
 		{Kind: "config", Snap: "some-snap", CfgVal: "v2"},
 		{Kind: "revert", Snap: "some-snap", Enum: true},
+		{Kind: "config", Snap: "some-snap", CfgVal: "v3"},
 		{Kind: "refresh-new", Snap: "some-snap", Rev: 3, Cohort: "cohort-2", Enum: true},
+		{Kind: "config", Snap: "some-snap", CfgVal: "v4"},
+		{Kind: "revert", Snap: "some-snap", Enum: true},
 	},
 	{ // removing the current revision of a disabled snap, also when it is first in the sequence
 		{Kind: "install", Snap: "some-snap", Rev: 1},
@@ -319,7 +322,8 @@ func (s *verifC1011Suite) request(op opSpec) (*state.TaskSet, string, error) {
 func (s *verifC1011Suite) settleQuiet() error {
 	s.state.Unlock()
 	defer s.state.Lock()
-	return s.o.Settle(20 * time.Second)
+	// a generous watchdog (the machine may be heavily loaded): firing is inconclusive
+	return s.o.Settle(5 * time.Minute)
 }
 
 type attempt struct {
@@ -516,7 +520,7 @@ func (s *verifC1011Suite) runHistories(c *C, prop string) {
 	chk.Assume("nothing is spliced after check-rerefresh (its handler refuses dependents by design)")
 	chk.Floor("faulted_changes", 50)
 
-	nHist := kit.Scale(len(directedHistories)+4, len(directedHistories)+6)
+	nHist := kit.Scale(len(directedHistories)+4, len(directedHistories)+4)
 	only := kit.OnlyCase()
 	for hi := 0; hi < nHist; hi++ {
 		if only >= 0 && hi != only {
